@@ -411,7 +411,7 @@ def random_params(net, rng):
         # for a negative density, so that states with negative entries are not all "not a number")
         pv[f"lp.{l}.a"] = rng.uniform(1.2, 2.5) if rng.random() < 0.8 else 2.0
         pv[f"lp.{l}.turnrate"] = rng.uniform(0.2, 3.0)
-        pv[f"lp.{l}.alpha"] = rng.uniform(0.0, 0.2)
+        pv[f"lp.{l}.alpha"] = rng.uniform(0.0, 0.2) if rng.random() < 0.8 else 0.0
     # turn rates: sometimes all equal (the default 1.0, or a common value), sometimes one leaving link of a
     # node closed (turn rate exactly 0) - legal values a rule may mishandle
     nodes_, edges_ = net.graph()
@@ -463,7 +463,7 @@ def random_state(net, pv, rng, mode="interior"):
         if k == "main":
             sv[f"u.{o}"] = pick(10.0, 150.0, [1e6, math.inf, 0.0, 3.0])
         elif k in ("ramp_in", "ramp_out"):
-            sv[f"u.{o}"] = pick(0.0, 1.0, [0.0, 1.0])
+            sv[f"u.{o}"] = pick(0.0, 1.0, [0.0, 1.0, 1.5])      # (a rate above one is not refused by the library)
         else:
             sv[f"u.{o}"] = pick(0.0, 3000.0, [0.0, 1e6])
     for d in net.dests:
